@@ -386,7 +386,7 @@ theorem current_congr {s t : SSt} (h : t.nodes = s.nodes) (i : Nat) : t.current 
 theorem lookup_inv {s t : SSt} {k : Key} {v : Val} (h : s.lookup k = some (v, t)) :
     (alookup k s.res = some v ∧ t = s) ∨
     (alookup k s.res = none ∧ ∃ fid, alookup k s.fac = some fid ∧ v = .gen 0 fid 0 ∧
-      t = { s with res := s.res ++ [(k, .gen 0 fid 0)] }) := by
+      t = { s with res := s.res ++ (s.genKeys fid).map (fun k' => (k', .gen 0 fid 0)) }) := by
   unfold SSt.lookup at h
   split at h
   · rename_i v' hv
